@@ -1213,6 +1213,46 @@ func (f *fgen) orderStmt() {
 		f.declare(x)
 	}
 	ops := []string{"+=", "-=", "|=", "^=", "*="}
+	if g.chance(25) {
+		// single-level array target whose index is sometimes out of range (-1 .. len): the calls on the
+		// right-hand side happen first, the panic when the assignment is carried out
+		g.Feat["order-index-range"]++
+		tgt, n := arr.name, arr.t.n
+		switch g.pick(3) {
+		case 0:
+			if !f.fd.pure {
+				tgt, n = "g2", 4 // global [4]int
+			}
+		case 1:
+			if sv := f.pickVar(true, func(v *vr) bool { return v.t.k == tStruct }); sv != nil {
+				for _, fl := range sv.t.fields {
+					if fl.t.k == tArray && fl.t.elem == g.tInt {
+						tgt, n = sv.name+"."+fl.name, fl.t.n
+					}
+				}
+			}
+		}
+		iv := f.pickVar(true, func(v *vr) bool { return v.t == g.tInt })
+		ix := fmt.Sprintf("%d", g.pick(n+2)-1)
+		if iv != nil {
+			ix = fmt.Sprintf("int(uint(%s)%%%d) - 1", iv.name, n+2)
+		} else if ix == "-1" || ix == fmt.Sprint(n) {
+			ix = "0" // a constant index out of range does not compile
+		}
+		switch g.pick(3) {
+		case 0:
+			f.line("%s[%s] = %s", tgt, ix, f.trc(9))
+		case 1:
+			if g.chance(50) {
+				f.line("%s[%s], %s = %s, %s", tgt, ix, x.name, f.trc(9), f.trc(9))
+			} else {
+				f.line("%s, %s[%s] = %s, %s", x.name, tgt, ix, f.trc(9), f.trc(9))
+			}
+		default:
+			f.line("%s[%s] %s %s", tgt, ix, ops[g.pick(len(ops))], f.trc(9))
+		}
+		return
+	}
 	switch g.pick(12) {
 	case 0, 1:
 		f.line("%s[%s] %s %s", arr.name, f.trc(arr.t.n), ops[g.pick(len(ops))], f.trc(9))
